@@ -235,6 +235,8 @@ def finding_key(entry, sc):
 
 
 def models(tier, seed):
+    if os.environ.get("VERIF_NOMODELS"):       # development aid (mutation campaigns): skip the TLC design models
+        return []
     q = tier == "quick"
     def cfg(depth, maxpush, bug="none", live=False, invs=("ReqOK", "NoOverrun", "FlagsSafe", "HeadIsOldest", "Settled")):
         s = "SPECIFICATION %s\nCONSTANTS Depth = %d\n MaxPush = %d\n Bug = \"%s\"\n" % ("FairSpec" if live else "Spec", depth, maxpush, bug)
